@@ -1,1 +1,401 @@
-(* stub *)
+(** C17: the generator is equivariant under a renumbering of the registry ids.
+    Resolution, IR construction and emission for a registry [r'] that answers
+    [resolve r' (pi id) = option_map (rename_ty pi) (resolve r id)] (in
+    particular [renumber pi r]); ids are never printed. *)
+From Coq Require Import List NArith String Bool Lia Permutation.
+From V Require Import Base.Strings Base.Result Model.Registry Model.Settings Model.Subst
+  Model.TypePath Model.Derives Model.Generate Model.Emit Model.Equal Model.Switches Model.Renumber
+  Proofs.GenProofs Proofs.TpMap.
+Import ListNotations.
+Open Scope string_scope. Open Scope list_scope.
+
+(** ** generic helpers *)
+Definition no_err {A} (x : result A) : Prop := forall e, x <> Err e.
+
+Lemma rmap_e_no_err {A B} pi (f : A -> B) (x : result A) : no_err x -> rmap_e pi f x = rmap f x.
+Proof. intros H. destruct x as [a|e|m]; try reflexivity. exfalso. exact (H e eq_refl). Qed.
+
+Lemma mapM_no_err {A B} (f : A -> result B) l : Forall (fun x => no_err (f x)) l -> no_err (mapM f l).
+Proof.
+  induction 1 as [|x l Hx Hl IH]; intros e; [discriminate|].
+  rewrite mapM_cons. destruct (f x) as [y|e'|m] eqn:E; cbn [bind].
+  - destruct (mapM f l) as [ys|e'|m] eqn:E2; cbn [bind]; try discriminate.
+    intros H; inversion H; subst. exact (IH _ eq_refl).
+  - exfalso. exact (Hx e' eq_refl).
+  - discriminate.
+Qed.
+
+Lemma mapM_map_same {A B} (f : A -> result B) (g : A -> A) l :
+  Forall (fun x => f (g x) = f x) l -> mapM f (map g l) = mapM f l.
+Proof.
+  induction 1 as [|x l Hx Hl IH]; [reflexivity|].
+  cbn [map]. rewrite !mapM_cons, Hx, IH. reflexivity.
+Qed.
+
+Lemma mapM_map_rmap_e {A A' B B'} pi (f1 : A -> result B) (f2 : A' -> result B')
+      (g : A -> A') (h : B -> B') l :
+  Forall (fun x => f2 (g x) = rmap_e pi h (f1 x)) l ->
+  mapM f2 (map g l) = rmap_e pi (map h) (mapM f1 l).
+Proof.
+  induction 1 as [|x l Hx Hl IH]; [reflexivity|].
+  cbn [map]. rewrite !mapM_cons, Hx, IH.
+  destruct (f1 x) as [y|e|m]; cbn; [|reflexivity|reflexivity].
+  destruct (mapM f1 l) as [ys|e|m]; reflexivity.
+Qed.
+
+Lemma find_map {A B} (f : B -> bool) (g : A -> B) l :
+  find f (map g l) = option_map g (find (fun x => f (g x)) l).
+Proof.
+  induction l as [|x l IH]; [reflexivity|]. cbn [map find].
+  destruct (f (g x)); [reflexivity|exact IH].
+Qed.
+
+Lemma find_ext {A} (f g : A -> bool) l : (forall x, f x = g x) -> find f l = find g l.
+Proof. intros H. induction l as [|x l IH]; [reflexivity|]. cbn [find]. rewrite H, IH. reflexivity. Qed.
+
+Lemma cow_match {T} (o : option string) (A B : T) :
+  match o with Some "Cow" => A | _ => B end =
+  if match o with Some x => String.eqb x "Cow" | None => false end then A else B.
+Proof.
+  destruct o as [x|]; [|reflexivity].
+  destruct (String.eqb x "Cow") eqn:E.
+  - apply String.eqb_eq in E. subst. reflexivity.
+  - destruct x as [|[[] [] [] [] [] [] [] []] x]; try reflexivity.
+    destruct x as [|[[] [] [] [] [] [] [] []] x]; try reflexivity.
+    destruct x as [|[[] [] [] [] [] [] [] []] x]; try reflexivity.
+    destruct x as [|a x]; [discriminate E|]. reflexivity.
+Qed.
+
+(** ** ids are never printed *)
+Section Ids.
+  Variable pi : N -> N.
+
+  Lemma tpi_name_rename p : tpi_name (rename_tpi pi p) = tpi_name p.
+  Proof. reflexivity. Qed.
+
+  Theorem tp_tokens_map_ids alloc t : tp_tokens alloc (map_ids pi t) = tp_tokens alloc t.
+  Proof.
+    induction t as [p|ptoks params IH|o IH|len o IH|els IH|p|i f cp IH|o st b IHo IHs]
+                   using tpath_ind'; cbn [map_ids].
+    - reflexivity.
+    - rewrite !tp_tokens_TPath, (mapM_map_same _ _ _ IH). reflexivity.
+    - rewrite !tp_tokens_TVec, IH. reflexivity.
+    - rewrite !tp_tokens_TArray, IH. reflexivity.
+    - rewrite !tp_tokens_TTuple, (mapM_map_same _ _ _ IH). reflexivity.
+    - reflexivity.
+    - rewrite !tp_tokens_TCompact, IH. reflexivity.
+    - rewrite !tp_tokens_TBitVec, IHo, IHs. reflexivity.
+  Qed.
+
+  Lemma is_compact_map_ids t : is_compact (map_ids pi t) = is_compact t.
+  Proof. destruct t; reflexivity. Qed.
+  Lemma is_uint_map_ids t : is_uint_up_to_u128 (map_ids pi t) = is_uint_up_to_u128 t.
+  Proof. destruct t; reflexivity. Qed.
+
+  Lemma parent_params_go l :
+    (fix go (l : list tpath) := match l with [] => [] | x :: l' => parent_params x ++ go l' end) l
+    = flat_map parent_params l.
+  Proof. induction l as [|x l IH]; [reflexivity|]. cbn [flat_map]. rewrite <- IH. reflexivity. Qed.
+
+  Lemma parent_params_TPath ptoks params :
+    parent_params (TPath ptoks params) = flat_map parent_params params.
+  Proof. rewrite <- parent_params_go. reflexivity. Qed.
+  Lemma parent_params_TTuple els : parent_params (TTuple els) = flat_map parent_params els.
+  Proof. rewrite <- parent_params_go. reflexivity. Qed.
+
+  Lemma flat_map_map_Forall {A B C} (f : B -> list C) (f' : A -> list C) (g : A -> B) l :
+    Forall (fun x => f (g x) = f' x) l -> flat_map f (map g l) = flat_map f' l.
+  Proof. induction 1 as [|x l Hx Hl IH]; [reflexivity|]. cbn [map flat_map]. rewrite Hx, IH. reflexivity. Qed.
+
+  Lemma flat_map_map_comm {A B C} (f : A -> list B) (g : B -> C) l :
+    flat_map (fun x => map g (f x)) l = map g (flat_map f l).
+  Proof. induction l as [|x l IH]; [reflexivity|]. cbn [flat_map]. rewrite IH, map_app. reflexivity. Qed.
+
+  Lemma parent_params_map_ids t :
+    parent_params (map_ids pi t) = map (rename_tpi pi) (parent_params t).
+  Proof.
+    induction t as [p|ptoks params IH|o IH|len o IH|els IH|p|i f cp IH|o st b IHo IHs]
+                   using tpath_ind'; cbn [map_ids].
+    - reflexivity.
+    - rewrite !parent_params_TPath.
+      rewrite (flat_map_map_Forall parent_params (fun x => map (rename_tpi pi) (parent_params x)) _ _ IH).
+      apply flat_map_map_comm.
+    - exact IH.
+    - exact IH.
+    - rewrite !parent_params_TTuple.
+      rewrite (flat_map_map_Forall parent_params (fun x => map (rename_tpi pi) (parent_params x)) _ _ IH).
+      apply flat_map_map_comm.
+    - reflexivity.
+    - exact IH.
+    - cbn [parent_params]. rewrite IHo, IHs, map_app. reflexivity.
+  Qed.
+
+  (** token emission never fails with a documented error *)
+  Lemma tp_tokens_no_err alloc t : no_err (tp_tokens alloc t).
+  Proof.
+    induction t as [p|ptoks params IH|o IH|len o IH|els IH|p|i f cp IH|o st b IHo IHs]
+                   using tpath_ind'; intros e.
+    - discriminate.
+    - rewrite tp_tokens_TPath. pose proof (mapM_no_err _ _ IH) as Hm.
+      destruct (mapM (tp_tokens alloc) params) as [ps|e'|m]; cbn [bind].
+      + destruct ps; discriminate.
+      + exfalso. exact (Hm e' eq_refl).
+      + discriminate.
+    - rewrite tp_tokens_TVec. destruct (tp_tokens alloc o) as [x|e'|m]; cbn [bind]; try discriminate.
+      exfalso. exact (IH e' eq_refl).
+    - rewrite tp_tokens_TArray. destruct (tp_tokens alloc o) as [x|e'|m]; cbn [bind]; try discriminate.
+      exfalso. exact (IH e' eq_refl).
+    - rewrite tp_tokens_TTuple. pose proof (mapM_no_err _ _ IH) as Hm.
+      destruct (mapM (tp_tokens alloc) els) as [ps|e'|m]; cbn [bind]; try discriminate.
+      exfalso. exact (Hm e' eq_refl).
+    - cbn [tp_tokens]. destruct p; cbn; discriminate.
+    - rewrite tp_tokens_TCompact. destruct (tp_tokens alloc i) as [x|e'|m]; cbn [bind].
+      + destruct f; discriminate.
+      + exfalso. exact (IH e' eq_refl).
+      + discriminate.
+    - rewrite tp_tokens_TBitVec. destruct (tp_tokens alloc o) as [x|e'|m]; cbn [bind].
+      + destruct (tp_tokens alloc st) as [y|e'|m]; cbn [bind]; try discriminate.
+        exfalso. exact (IHs e' eq_refl).
+      + exfalso. exact (IHo e' eq_refl).
+      + discriminate.
+  Qed.
+End Ids.
+
+(** ** resolution *)
+Section Resolve.
+  Variable pi : N -> N.
+  Variable r r' : registry.
+  Variable s : settings.
+  Hypothesis Hinj : forall i j, pi i = pi j -> i = j.
+  Hypothesis Hres : forall id, resolve r' (pi id) = option_map (rename_ty pi) (resolve r id).
+  Hypothesis Hlen : List.length r' = List.length r.
+
+  Lemma pi_eqb a b : N.eqb (pi a) (pi b) = N.eqb a b.
+  Proof.
+    destruct (N.eqb_spec a b) as [->|Hne]; [apply N.eqb_refl|].
+    apply N.eqb_neq. intros H. apply Hne, Hinj, H.
+  Qed.
+
+  Lemma find_parent_rename parents id orig :
+    find_parent (map (rename_tpi pi) parents) (pi id) orig =
+    option_map (rename_tpi pi) (find_parent parents id orig).
+  Proof.
+    unfold find_parent. rewrite find_map. f_equal. apply find_ext. intros x.
+    cbn [rename_tpi tpi_id tpi_orig]. rewrite pi_eqb. reflexivity.
+  Qed.
+
+  Lemma resolve_type_rename id :
+    resolve_type r' (pi id) = rmap_e pi (rename_ty pi) (resolve_type r id).
+  Proof. unfold resolve_type. rewrite Hres. destruct (resolve r id); reflexivity. Qed.
+
+  Lemma param_ids_rename t : param_ids (rename_ty pi t) = map pi (param_ids t).
+  Proof.
+    unfold param_ids. cbn [rename_ty t_params].
+    induction (t_params t) as [|p l IH]; [reflexivity|].
+    cbn [map flat_map]. rewrite IH, map_app. f_equal.
+    destruct p as [nm [i|]]; reflexivity.
+  Qed.
+
+  Lemma sel_map_ids (m : list (string * nat)) params :
+    flat_map (fun '(id, idx) => match nth_error (map (map_ids pi) params) idx with
+                                | Some p => [(id, p)] | None => [] end) m =
+    map (fun x => (fst x, map_ids pi (snd x)))
+        (flat_map (fun '(id, idx) => match nth_error params idx with
+                                     | Some p => [(id, p)] | None => [] end) m).
+  Proof.
+    induction m as [|[id idx] m IH]; [reflexivity|].
+    cbn [flat_map]. rewrite IH, map_app. f_equal.
+    rewrite nth_error_map. destruct (nth_error params idx); reflexivity.
+  Qed.
+
+  Lemma for_path_map_ids path params :
+    for_path_with_params s path (map (map_ids pi) params) =
+    option_map (rmap (map_ids pi)) (for_path_with_params s path params).
+  Proof.
+    unfold for_path_with_params. destruct (subs_get (s_subs s) path) as [sub|]; [|reflexivity].
+    cbn [option_map]. f_equal. destruct (su_map sub) as [|m]; [reflexivity|].
+    rewrite sel_map_ids.
+    destruct (flat_map _ m) as [|x sel]; [reflexivity|].
+    set (f := fun '(id, p) => let* t := tp_tokens (alloc_tokens (s_alloc s)) p in Ok (id, t)).
+    assert (Hm : mapM f (map (fun x => (fst x, map_ids pi (snd x))) (x :: sel)) = mapM f (x :: sel)).
+    { apply mapM_map_same. apply Forall_forall. intros [id p] _. unfold f. cbn [fst snd].
+      rewrite tp_tokens_map_ids. reflexivity. }
+    cbn [map] in Hm |- *. rewrite Hm.
+    destruct (mapM f (x :: sel)) as [repl|e|msg]; reflexivity.
+  Qed.
+
+  Lemma type_path_maybe_map_ids path params :
+    type_path_maybe_with_substitutes s path (map (map_ids pi) params) =
+    rmap (map_ids pi) (type_path_maybe_with_substitutes s path params).
+  Proof.
+    unfold type_path_maybe_with_substitutes. rewrite for_path_map_ids.
+    destruct (for_path_with_params s path params) as [x|]; [reflexivity|].
+    destruct (from_type_def_path path (s_root s) (alloc_tokens (s_alloc s))); reflexivity.
+  Qed.
+
+  Lemma from_type_def_path_no_err path root alloc : no_err (from_type_def_path path root alloc).
+  Proof.
+    intros e. unfold from_type_def_path. destruct path as [|a [|b l]]; [discriminate| |].
+    - destruct (assoc_str (prelude_table alloc) a); discriminate.
+    - destruct (forallb ident_lexb (a :: b :: l)); discriminate.
+  Qed.
+
+  Lemma type_path_maybe_no_err path params :
+    no_err (type_path_maybe_with_substitutes s path params).
+  Proof.
+    intros e. unfold type_path_maybe_with_substitutes, for_path_with_params.
+    destruct (subs_get (s_subs s) path) as [sub|].
+    - destruct (su_map sub) as [|m]; [discriminate|].
+      destruct (flat_map _ m) as [|x sel]; [discriminate|].
+      set (f := fun '(id, p) => let* t := tp_tokens (alloc_tokens (s_alloc s)) p in Ok (id, t)).
+      assert (Hm : no_err (mapM f (x :: sel))).
+      { apply mapM_no_err. apply Forall_forall. intros [id p] _ e'. unfold f.
+        pose proof (tp_tokens_no_err (alloc_tokens (s_alloc s)) p) as Hp.
+        destruct (tp_tokens (alloc_tokens (s_alloc s)) p) as [t|e''|msg]; cbn [bind]; try discriminate.
+        exfalso. exact (Hp e'' eq_refl). }
+      destruct (mapM f (x :: sel)) as [repl|e'|msg]; cbn [bind]; try discriminate.
+      exfalso. exact (Hm e' eq_refl).
+    - pose proof (from_type_def_path_no_err path (s_root s) (alloc_tokens (s_alloc s))) as Hp.
+      destruct (from_type_def_path path (s_root s) (alloc_tokens (s_alloc s))) as [p|e'|msg];
+        cbn [bind]; try discriminate.
+      exfalso. exact (Hp e' eq_refl).
+  Qed.
+
+  (** one unfolding of the resolver *)
+  Lemma resolve_rec_S rr fuel id is_field parents orig :
+    resolve_rec rr s (S fuel) id is_field parents orig =
+    match find_parent parents id orig with
+    | Some p => Ok (TParam p)
+    | None =>
+      let* t0 := resolve_type rr id in
+      let* t :=
+        match path_ident (t_path t0) with
+        | Some "Cow" =>
+            match t_params t0 with
+            | [] => Panic "index out of bounds"
+            | p0 :: _ =>
+                match tp_ty p0 with
+                | None => Err EInvalidType
+                | Some inner => resolve_type rr inner
+                end
+            end
+        | _ => Ok t0
+        end in
+      let* params := mapM (fun i => resolve_rec rr s fuel i false parents None) (param_ids t) in
+      match t_def t with
+      | TDComposite _ | TDVariant _ => type_path_maybe_with_substitutes s (t_path t) params
+      | TDPrimitive p => Ok (TPrim p)
+      | TDArray len e => let* i := resolve_rec rr s fuel e false parents None in Ok (TArray len i)
+      | TDSequence e => let* i := resolve_rec rr s fuel e false parents None in Ok (TVec i)
+      | TDTuple es => let* l := mapM (fun i => resolve_rec rr s fuel i false parents None) es in
+                      Ok (TTuple l)
+      | TDCompact e =>
+          let* i := resolve_rec rr s fuel e false parents None in
+          match s_compact s with
+          | None => Err ECompactPathNone
+          | Some c => Ok (TCompact i is_field c)
+          end
+      | TDBitSeq store order =>
+          match s_bits s with
+          | None => Err EBitsPathNone
+          | Some b =>
+              let* o := resolve_rec rr s fuel order false parents None in
+              let* st := resolve_rec rr s fuel store false parents None in
+              Ok (TBitVec o st b)
+          end
+      end
+    end.
+  Proof. reflexivity. Qed.
+
+  (** the "Cow" indirection step *)
+  Definition cow_step (rr : registry) (t0 : ty) : result ty :=
+    if match path_ident (t_path t0) with Some x => String.eqb x "Cow" | None => false end
+    then match t_params t0 with
+         | [] => Panic "index out of bounds"
+         | p0 :: _ =>
+             match tp_ty p0 with
+             | None => Err EInvalidType
+             | Some inner => resolve_type rr inner
+             end
+         end
+    else Ok t0.
+
+  Lemma cow_step_rename t0 :
+    cow_step r' (rename_ty pi t0) = rmap_e pi (rename_ty pi) (cow_step r t0).
+  Proof.
+    unfold cow_step. cbn [rename_ty t_path t_params].
+    destruct (match path_ident (t_path t0) with Some x => String.eqb x "Cow" | None => false end);
+      [|reflexivity].
+    destruct (t_params t0) as [|p0 ps]; [reflexivity|]. cbn [map].
+    destruct p0 as [nm [inner|]]; cbn [rename_tparam tp_ty option_map]; [|reflexivity].
+    apply resolve_type_rename.
+  Qed.
+
+  Theorem resolve_rec_equivariant : forall fuel id is_field parents orig,
+    resolve_rec r' s fuel (pi id) is_field (map (rename_tpi pi) parents) orig =
+    rmap_e pi (map_ids pi) (resolve_rec r s fuel id is_field parents orig).
+  Proof.
+    induction fuel as [|fuel IH]; intros id is_field parents orig; [reflexivity|].
+    rewrite !resolve_rec_S, find_parent_rename.
+    destruct (find_parent parents id orig) as [p|]; [reflexivity|]. cbn [option_map].
+    rewrite resolve_type_rename.
+    destruct (resolve_type r id) as [t0|e|m]; [|reflexivity|reflexivity].
+    cbn [rmap_e bind]. rewrite !cow_match.
+    change (if match path_ident (t_path (rename_ty pi t0)) with
+               | Some x => (x =? "Cow")%string | None => false end
+            then match t_params (rename_ty pi t0) with
+                 | [] => Panic "index out of bounds"
+                 | p0 :: _ => match tp_ty p0 with
+                              | Some inner => resolve_type r' inner
+                              | None => Err EInvalidType
+                              end
+                 end
+            else Ok (rename_ty pi t0)) with (cow_step r' (rename_ty pi t0)).
+    change (if match path_ident (t_path t0) with
+               | Some x => (x =? "Cow")%string | None => false end
+            then match t_params t0 with
+                 | [] => Panic "index out of bounds"
+                 | p0 :: _ => match tp_ty p0 with
+                              | Some inner => resolve_type r inner
+                              | None => Err EInvalidType
+                              end
+                 end
+            else Ok t0) with (cow_step r t0).
+    rewrite cow_step_rename.
+    destruct (cow_step r t0) as [t|e|m]; [|reflexivity|reflexivity].
+    cbn [rmap_e bind]. rewrite param_ids_rename.
+    assert (HM : forall l, mapM (fun i => resolve_rec r' s fuel i false (map (rename_tpi pi) parents) None)
+                                (map pi l) =
+                           rmap_e pi (map (map_ids pi))
+                                  (mapM (fun i => resolve_rec r s fuel i false parents None) l)).
+    { intros l. apply mapM_map_rmap_e. apply Forall_forall. intros x _. apply IH. }
+    rewrite HM.
+    destruct (mapM (fun i => resolve_rec r s fuel i false parents None) (param_ids t))
+      as [params|e|m]; [|reflexivity|reflexivity].
+    cbn [rmap_e bind]. cbn [rename_ty t_def t_path].
+    destruct (t_def t) as [fs|vs|e|len e|es|p|e|st o]; cbn [rename_def].
+    - rewrite type_path_maybe_map_ids. symmetry. apply rmap_e_no_err, type_path_maybe_no_err.
+    - rewrite type_path_maybe_map_ids. symmetry. apply rmap_e_no_err, type_path_maybe_no_err.
+    - rewrite IH. destruct (resolve_rec r s fuel e false parents None); reflexivity.
+    - rewrite IH. destruct (resolve_rec r s fuel e false parents None); reflexivity.
+    - rewrite HM. destruct (mapM _ es); reflexivity.
+    - reflexivity.
+    - rewrite IH. destruct (resolve_rec r s fuel e false parents None) as [i|e'|m]; try reflexivity.
+      cbn [rmap_e bind]. destruct (s_compact s); reflexivity.
+    - destruct (s_bits s) as [b|]; [|reflexivity].
+      rewrite !IH. destruct (resolve_rec r s fuel o false parents None) as [x|e'|m]; try reflexivity.
+      cbn [rmap_e bind]. destruct (resolve_rec r s fuel st false parents None); reflexivity.
+  Qed.
+
+  Lemma fuel0_eq : fuel0 r' = fuel0 r.
+  Proof. unfold fuel0. rewrite Hlen. reflexivity. Qed.
+
+  Corollary resolve_type_path_equivariant id :
+    resolve_type_path r' s (pi id) = rmap_e pi (map_ids pi) (resolve_type_path r s id).
+  Proof. unfold resolve_type_path. rewrite fuel0_eq. apply (resolve_rec_equivariant _ _ _ []). Qed.
+
+  Corollary resolve_field_type_path_equivariant id parents orig :
+    resolve_field_type_path r' s (pi id) (map (rename_tpi pi) parents) orig =
+    rmap_e pi (map_ids pi) (resolve_field_type_path r s id parents orig).
+  Proof. unfold resolve_field_type_path. rewrite fuel0_eq. apply resolve_rec_equivariant. Qed.
+End Resolve.
